@@ -2380,7 +2380,7 @@ def main():
         print(tr['log'])
         if tr['ok']:
             lib.gen_checks(tr['summary'])
-        ok, fails, log = lib.lake_build(['Blf', 'blfdriver'])
+        ok, fails, log = lib.lake_build(['Blf', 'blfdriver', 'Blf.MonitorTie'] + ['Blf.Props.C%02d' % i for i in range(1, 18)])
         print(log[-2000:])
         sys.exit(0 if ok else 1)
     if a.prop not in PROPS:
